@@ -452,7 +452,9 @@ def _run_case(spec):
         want_rec = bool(spec.get("record")) or bool(spec.get("verify_replay"))
         out, st, exc, tr = run_workload(wl, wp, sched, record=want_rec, replay=replay)
         stats["sched_runs"] += 1
-        if spec.get("verify_replay") and tr is not None and not tr["overflow"] and len(tr["segs"]) <= 300000 and exc is None and not st["error"]:
+        # (only for runs that agree with the reference: a run that is a violation anyway may
+        # return arrays with elements nobody wrote, i.e. heap garbage that differs run to run)
+        if spec.get("verify_replay") and tr is not None and not tr["overflow"] and len(tr["segs"]) <= 300000 and exc is None and not st["error"] and not compare(ref, out)[0]:
             # replay fidelity: following the recorded schedule trace (not the PRNG) must
             # reproduce the execution exactly
             out_r, st_r, exc_r, _ = run_workload(wl, wp, sched, record=False, replay=tr)
